@@ -1666,6 +1666,11 @@ class NumpyModel(object):
             d = k.get('dtype', a[1] if len(a) > 1 else None)
             dt, bits = self.dtype_of(d)
             v = I.force(a[0])
+            if I_.config.get('array_of_lists_ok') and isinstance(v, Seq) and (not v.items or all(isinstance(x_, SymSeq) for x_ in v.items)) \
+                    and not (v.items == [] and False):
+                # a list of symbolic-length lists (values parsed from table cells): kept as it is, only ever handed on
+                if v.items:
+                    return Opaque('array-of-lists', v)
             if isinstance(v, NDArr):
                 out = self.m_astype(v, d) if dt else self.copy_array(v)
                 out.writeable = True
@@ -2119,6 +2124,7 @@ class NumpyModel(object):
         self.ax('np.argsort(v): a permutation p of the positions with v[p[k]] non-decreasing in k')
         out = self.new([v.shape[0]], 'int', lambda t: P(t))
         out.perm = (P, Q, vf)
+        out.sorted_src = v
         return out
 
     def cumsum(self, v):
